@@ -1,7 +1,9 @@
 (* Property C07 - motion is reported exactly per the configured thresholds (fixed threshold). *)
+From Coq Require Import String.
 From Coq Require Import List ZArith Bool.
 From TR Require Import model.Ring model.Detector model.DetSpec proofs.DetC07.
 (* constants and wiring read from the Go sources on every run *)
+From TR Require Import model.GoSem model.CtorExt proofs.TieCtor translated.MotionDetector.
 From TR Require Import proofs.FactsDet.
 From TR Require Import model.DetExt proofs.TieDet.
 Import ListNotations.
@@ -54,3 +56,19 @@ Theorem C07_source_tie : forall c evs,
     thresh_bounded_from c (dinit c) evs = true ->
     map (dproj c) (src_dtrace c evs) = model_dtrace c (dinit c) evs.
 Proof. exact tie_detector. Qed.
+
+(* ---- source tie for the constructor(s) as they are in /repo now (coq/translated, regenerated on
+   every run; configuration values are asked of the outside world by name, model/CtorExt.v) ---- *)
+(* NewMotionDetector builds the model's initial detector for the configuration it is given: compare
+   ring of gap+1 frames, diff ring of 2, thresholds as configured (a fixed threshold is NOT clamped to
+   temp-thresh-min/max), geometry start = edge, rowStop = ResY - edge, columnStop = ResX - edge,
+   numPixels = interior size. *)
+Theorem C07_source_constructor : forall c preview,
+    0 <= r_gap c -> 0 <= r_resx c -> 0 <= r_resy c -> 0 <= r_edge c ->
+    u16 (r_thresh c) -> u16 (r_tmin c) -> u16 (r_tmax c) -> u16 (r_delta c) ->
+    exists d w',
+      MotionDetector_fn_NewMotionDetector cext preview (cw_init c) = Ok d w' /\
+      motionDetector_set_framesHz 9 d = md_init (dcfg_of c preview) /\
+      motionDetector_framesHz d = r_fps c /\
+      cw_next w' = r_gap c + 4.
+Proof. exact tie_NewMotionDetector. Qed.
